@@ -25,11 +25,22 @@ texts are of the `mixRun` kind (words, escapes, code spans, `em`/`strong`: `Prop
 is changed by `code_escape`: with `>` in a code span the TREE text gains the letters of `&gt;`,
 `C06_gt_in_code_adds_letters`).  `C06_links_chunks`: the same at the level of chunks, any escapable set.
 
+**Inline links** (`C06_inline_links`): the paragraph is `c₀ [t₁](d₁) c₁ … [tₘ](dₘ) cₘ` (`printLineI`) with simple
+destinations `dⱼ` = `url` or `url "title"` / `url 'title'` (`DestOK`: `url` of non-space destination characters of
+`Spec/NoCtlC.lean` (`destChar`, the C10c domain) without `!`, not starting with `<`; the title of such characters and
+blanks, not empty, no blank at either end).  Visible: the contents and the link texts (`visibleLineI`); not visible:
+`(destination "title")`.  `C06_inline_links_output` gives the output itself (`href` = the destination, `title` = the
+title text, the link text rendered inside `<a>`), `C06_getLink_dest` what `LinkInlineProcessor.getLink` returns on such
+a destination.  Proof: `Lemmas/RefTextInl*.lean` (the reference pattern rejects `[text](`, the link pattern takes the
+links out left to right with the nested `__handleInline` on the link text; the later stages are those of the
+reference case), `Lemmas/LettersLinksInl.lean`.
+
 Helper lemmas: `Lemmas/LettersLinks.lean` (text content of the document tree, letters of a chunk),
 `Lemmas/LettersLinksDoc.lean` (the tree is a vocabulary tree without `&` in its texts; `visibleLetters_inner` of C06),
 `Lemmas/LettersLinksSpec.lean` (bridge to `printInlines`).
 -/
 import MdVerif.Lemmas.LettersLinksSpec
+import MdVerif.Lemmas.LettersLinksInl
 import MdVerif.Props.C15Text
 import MdVerif.Props.C06
 
@@ -91,6 +102,54 @@ theorem C06_chunk_letters {L : Char → Bool} (hL : Flat.LetterClass L) (esc : L
     (hc : c.CodeClean) (hok : DocParse2.MSegsOK c.segs) :
     Flat.letters L (c.raw esc) = Flat.letters L c.content := letters_chunk hL esc c hc hok
 
+/-! ### inline links -/
+
+/-- **C06 with inline links.**  Any definitions around (they are not used), the paragraph
+    `c₀ [t₁](d₁) c₁ … [tₘ](dₘ) cₘ`: contents and link texts of the `mixRun` kind under any spelling, simple
+    destinations (`MLink.ok`), no `>` in the line.  The output is well-formed and its visible letters are the letters
+    of the visible part of the source line (`visibleLineI`: contents and link texts) — destinations and titles
+    contribute nothing. -/
+theorem C06_inline_links {L : Char → Bool} (hL : Flat.LetterClass L) (cfg : Pipeline.Cfg) (hfmt : cfg.fmt = .xhtml)
+    (hbl : cfg.blockLevel = TreeProc.defaultBlockLevel) (htab : 0 < cfg.tab) (hesc : cfg.esc = DocParse2.ESC)
+    (before after : List DefSpec) (hb : ∀ d ∈ before, d.ok cfg.tab = true)
+    (ha : ∀ d ∈ after, d.ok cfg.tab = true) (c0 : List DocSpec.Inline) (ls : List MLink) (st : DocSpec.PSt)
+    (hne : ls ≠ []) (h0 : mixOK c0 = true) (hls : ∀ u ∈ ls, u.ok = true)
+    (hstart : startPlain (printLineI c0 ls st) = true) (hchars : (printLineI c0 ls st).all lineCh = true)
+    (hgt : '>' ∉ printLineI c0 ls st) (hnoref : Block.refMatchAt (printLineI c0 ls st) 0 = none) :
+    ∃ out, Pipeline.convert cfg (docOf before (printLineI c0 ls st) after) = .ok out ∧
+      (Ser.readForest cfg.fmt out).isSome = true ∧
+      C06.visibleLetters L cfg.fmt out = Flat.letters L (visibleLineI c0 ls st) :=
+  letters_mixLineI hL cfg hfmt hbl htab hesc before after hb ha c0 ls st hne h0 hls hstart hchars hgt hnoref
+
+/-- **the output for a line with inline links**: the contents rendered as the syntax rules say, each link as
+    `<a href="url" title="title">` + the rendered link text + `</a>` (`specLinks`) -/
+theorem C06_inline_links_output (cfg : Pipeline.Cfg) (hfmt : cfg.fmt = .xhtml)
+    (hbl : cfg.blockLevel = TreeProc.defaultBlockLevel) (htab : 0 < cfg.tab) (hesc : cfg.esc = DocParse2.ESC)
+    (before after : List DefSpec) (hb : ∀ d ∈ before, d.ok cfg.tab = true)
+    (ha : ∀ d ∈ after, d.ok cfg.tab = true) (c0 : List DocSpec.Inline) (ls : List MLink) (st : DocSpec.PSt)
+    (hne : ls ≠ []) (h0 : mixOK c0 = true) (hls : ∀ u ∈ ls, u.ok = true)
+    (hstart : startPlain (printLineI c0 ls st) = true) (hchars : (printLineI c0 ls st).all lineCh = true)
+    (hnoref : Block.refMatchAt (printLineI c0 ls st) 0 = none) :
+    Pipeline.convert cfg (docOf before (printLineI c0 ls st) after) =
+      .ok ("<p>".toList ++ (DocSpec.specInlines c0 ++ specLinks ls) ++ "</p>".toList) :=
+  convert_mixLineI cfg hfmt hbl htab hesc before after hb ha c0 ls st hne h0 hls hstart hchars hnoref
+
+/-- the rendering of the links, spelled out -/
+theorem C06_specLinks_spec (u : MLink) (r : List MLink) :
+    specLinks [] = [] ∧
+    specLinks (u :: r) = ("<a href=\"".toList ++ Ser.escAttrHtml u.url ++ ['"'] ++
+        InlineRef.titleAttr (u.dtitle.map (·.2)) ++ ['>']) ++
+      (DocSpec.specInlines u.text ++ ("</a>".toList ++ DocSpec.specInlines u.after)) ++ specLinks r :=
+  ⟨rfl, rfl⟩
+
+/-- **`getLink` on a simple destination**: for `(url)` / `(url "title")` after any prefix `X`, before any rest:
+    the destination, the title text, the position behind `)`, handled -/
+theorem C06_getLink_dest (stash : List StashItem) (X url rest : Str) (title : Option (Char × Str))
+    (h : DestOK url title) :
+    getLink (unescape stash) (X ++ '(' :: (destSrc url title ++ ')' :: rest)) X.length =
+      (url, title.map (·.2), ((X.length + 1 + (destSrc url title).length + 1 : Nat) : Int), true) :=
+  getLink_dest stash X url rest title h
+
 /-! ### the theorem at work (kernel-checked) -/
 
 section examples
@@ -129,6 +188,43 @@ example :
         (docOf [⟨0, S "foo bar", S "/old", none, false⟩, ⟨0, S "Foo Bar", S "/u?a=b", some (.dq, S "T"), false⟩]
           (printLine sampleC0 [sampleU1, sampleU2] sampleSt) [⟨1, S "X", S "/v", none, false⟩]) =
       "foobaroldFooBaruabTseeitandabthedocsofxyFooBARthenplainxXv".toList := by decide +kernel
+
+/-- inline links: a destination with a title, one without -/
+def sampleL1 : MLink :=
+  ⟨[.strong [.text (S "the docs")], .text (S " of "), .code (S "x*y"), .esc '_'], S "http://e.org/a?b=c#d",
+    some ('"', S "The Title"), [.text (S " then "), .esc '*']⟩
+def sampleL2 : MLink := ⟨[.text (S "plain 2")], S "/v", none, [.esc '.', .code (S "`")]⟩
+
+example : sampleL1.ok = true ∧ sampleL2.ok = true := by decide
+
+example : printLineI sampleC0 [sampleL1, sampleL2] sampleSt =
+    ("see _it_ and ``a[b]``\\! [**the docs** of ``x*y``\\_](http://e.org/a?b=c#d \"The Title\") then " ++
+     "\\*[plain 2](/v)\\.``` ` ```").toList := by decide +kernel
+
+/-- through the theorems: the output, and its visible letters -/
+example : Pipeline.convert {} (docOf [] (printLineI sampleC0 [sampleL1, sampleL2] sampleSt) []) =
+    .ok ("<p>".toList ++ (specInlines sampleC0 ++ specLinks [sampleL1, sampleL2]) ++ "</p>".toList) :=
+  C06_inline_links_output {} rfl rfl (by decide) rfl [] [] (by simp) (by simp) sampleC0 [sampleL1, sampleL2] sampleSt
+    (by simp) (by decide) (by decide) (by decide +kernel) (by decide +kernel) (by decide +kernel)
+
+example : ∃ out, Pipeline.convert {} (docOf [] (printLineI sampleC0 [sampleL1, sampleL2] sampleSt) []) = .ok out ∧
+    (Ser.readForest .xhtml out).isSome = true ∧
+    C06.visibleLetters Flat.isLetterU .xhtml out =
+      Flat.letters Flat.isLetterU (visibleLineI sampleC0 [sampleL1, sampleL2] sampleSt) :=
+  C06_inline_links Flat.letterClass_unicode {} rfl rfl (by decide) rfl [] [] (by simp) (by simp) sampleC0
+    [sampleL1, sampleL2] sampleSt (by simp) (by decide) (by decide) (by decide +kernel) (by decide +kernel)
+    (by decide +kernel) (by decide +kernel)
+
+/-- the same evaluated by the kernel on the model; the letters of the whole source have those of the destinations and
+    the title in addition (`httpeorgabcd`, `TheTitle`, `v`) -/
+example :
+    Pipeline.convert {} (docOf [] (printLineI sampleC0 [sampleL1, sampleL2] sampleSt) []) =
+      .ok ("<p>see <em>it</em> and <code>a[b]</code>! <a href=\"http://e.org/a?b=c#d\" title=\"The Title\">" ++
+        "<strong>the docs</strong> of <code>x*y</code>_</a> then *<a href=\"/v\">plain 2</a>.<code>`</code></p>").toList ∧
+    Flat.letters Flat.isLetterU (visibleLineI sampleC0 [sampleL1, sampleL2] sampleSt) =
+      "seeitandabthedocsofxythenplain".toList ∧
+    Flat.letters Flat.isLetterU (printLineI sampleC0 [sampleL1, sampleL2] sampleSt) =
+      "seeitandabthedocsofxyhttpeorgabcdTheTitlethenplainv".toList := by decide +kernel
 
 end examples
 
